@@ -89,5 +89,10 @@ extern int g_max_per_key;
 /* ---- samples for the evidence file ---- */
 void sample(const char* fmt, ...) __attribute__((format(printf, 1, 2)));
 
+/* lazy replay-case strings: hot loops record the case parameters, the string is only built on a violation */
+extern const char* g_cs_suite; extern long long g_cs_p[7];
+static inline void cs_set(char* cs, const char* suite, long long sub, long long a, long long b, long long c, long long d, long long e, long long f)
+{ cs[0] = 0; g_cs_suite = suite; g_cs_p[0] = sub; g_cs_p[1] = a; g_cs_p[2] = b; g_cs_p[3] = c; g_cs_p[4] = d; g_cs_p[5] = e; g_cs_p[6] = f; }
+#define SETCS(...) cs_set(cs, __VA_ARGS__)
 void hex(char* out, const uint8_t* b, size_t n);
 void emit_counters(const char* suite);
